@@ -90,6 +90,9 @@ func symPaths(r *Recipe) map[string]string {
 }
 
 func declaredName(r *Recipe, path string) (string, bool) {
+	if path == "C" {
+		return "C", true // the cgo pseudo-package
+	}
 	for _, p := range r.Paths {
 		if p.Path == path {
 			return p.Name, true
